@@ -233,6 +233,8 @@ Ret(kind, hasOut, out, hasErr, err) ==
           \cup V(kind # "panic", "C01_panic")
           \cup V(kind # "panic" => \A o \in Outs : has[o] = (o \in piped), "C02_absent_iff_not_piped")
           \cup V(\A o \in Outs : IsPrefixOf(nd[o], written[o]), "C02_out_exact")
+          \* C04: the same under a time limit, across timed-out and resumed reads
+          \cup V(dl # NoTime => \A o \in Outs : IsPrefixOf(nd[o], written[o]), "C04_no_output_lost_or_repeated_across_resumed_reads")
           \cup V(complete => \A o \in Outs \cap piped : nd[o] = written[o] /\ buf[o] = <<>> /\ ~cOpen[o],
                  "C02_out_complete")
           \cup V(complete /\ "in" \in piped => inAcc = input /\ ~pOpen["in"], "C02_in_complete")
@@ -298,6 +300,7 @@ PWpart(ids) ==
   /\ pwDone' = pwDone + Len(ids)
   /\ noProg' = 0
   /\ viol' = viol \cup V(IsPrefixOf(inAcc \o ids, input), "C02_in_exact")
+                   \cup V(dl # NoTime => IsPrefixOf(inAcc \o ids, input), "C04_input_delivered_exactly_once_across_resumed_reads")
   /\ UNCHANGED <<piped, cap, k, short, input, flood, pOpen, cOpen, cPend, cAlive, now, inCall, limit, dl, sawEof,
                  written, delivered, cRecv, cEof, after, sanity>>
 
@@ -320,6 +323,7 @@ PWrite(ids, n) ==
             m == IF n > 0 THEN 0 ELSE noProg + 1
         IN /\ after' = a /\ noProg' = m
            /\ viol' = viol \cup V(IsPrefixOf(inAcc \o rest, input), "C02_in_exact")
+                           \cup V(dl # NoTime => IsPrefixOf(inAcc \o rest, input), "C04_input_delivered_exactly_once_across_resumed_reads")
                            \cup V(AfterOk(a), "C04_bounded") \cup V(SpinOk(m), "C01_no_spin")
   /\ pwDone' = 0
   /\ UNCHANGED <<piped, cap, k, short, input, flood, pOpen, cOpen, cPend, cAlive, now, inCall, limit, dl, sawEof,
